@@ -79,7 +79,13 @@ def run_retry(case):
                     if best is None or len(rq['expected']) > len(reqs[best]['expected']):
                         best = i
             if best is not None:
-                dispatched[best] = s.now
+                if abs(issue[best][0] - s.now) < EPS:
+                    # issued at the very instant this packet arrives: whether the request was already registered when the
+                    # packet was looked at is not determined - no verdict for this request
+                    undecided.add(best)
+                else:
+                    dispatched[best] = s.now
+        undecided = set()
         env.world.on_deliver = on_deliver
         cf = Crazyflie()
         # ---- requests issued from inside the port callback that handles the answer to an earlier request
@@ -100,6 +106,19 @@ def run_retry(case):
                     cf.send_packet(npk, expected_reply=tuple(r['expected']), timeout=r['timeout'])
         for prt in (2, 4, 5, 13):
             cf.add_port_callback(prt, port_handler)
+        # an application that connects again from inside the notification of the failure (auto-reconnect)
+        auto = {'armed': False, 'reopened': False}
+
+        def on_failure(*a):
+            if auto['armed']:
+                auto['armed'] = False
+                sessions[-1][1] = s.now
+                net.fault = None
+                cf.open_link('sim://1')
+                sessions.append([s.now, None])
+                auto['reopened'] = True
+        cf.connection_failed.add_callback(on_failure)
+        cf.connection_lost.add_callback(on_failure)
         # ---- timeline: merge requests / unrelated / events by time
         timeline = []
         for i, r in enumerate(reqs):
@@ -143,6 +162,8 @@ def run_retry(case):
                     cf.close_link()
                     sessions[-1][1] = s.now
                 elif kind == 'linkerror' and link_open:
+                    if arg.get('reopen_in_cb'):
+                        auto['armed'] = True
                     net.fault = {'k': 0, 'reporter': 'driver', 'session': len(env.world.links) - 1}
                     env.world.fault_fired = False
                     env.world.links[-1]._fault_event.set()
@@ -151,11 +172,14 @@ def run_retry(case):
                     t_err = s.now
                     # the error is processed by the driver thread; wait until the link is gone (bounded)
                     for _ in range(50):
-                        if cf.link is None:
+                        if cf.link is None or auto['reopened']:
                             break
                         s.sleep(0.0001)
-                    sessions[-1][1] = t_err
-                elif kind == 'reopen' and not link_open:
+                    if auto['reopened']:
+                        auto['reopened'] = False
+                    else:
+                        sessions[-1][1] = t_err
+                elif kind == 'reopen' and not link_open and not any(e.get('reopen_in_cb') for e in case['events']):
                     net.fault = None
                     cf.open_link('sim://1')
                     sessions.append([s.now, None])
@@ -177,7 +201,7 @@ def run_retry(case):
                                                        [(e['t'], e['kind']) for e in case['events']])
         # ---- transmissions per request, per session
         for i, r in enumerate(reqs):
-            if i not in issue:
+            if i not in issue or i in undecided:
                 continue
             t0, sess = issue[i]
             tx = []
@@ -187,6 +211,8 @@ def run_retry(case):
                         tx.append((tt, si, closed))
             if r.get('thread') and tx:
                 sess = tx[0][1]      # issued at the instant of a close/reopen: its session is the one that first carried it
+            elif tx and any(ts_ - EPS <= t0 <= ts_ + d_ + EPS for ts_, d_, _n in s.stall_log):
+                sess = tx[0][1]      # issued while a thread was held up (possibly inside the handling of a link error): same rule
             if sess is None:
                 if tx:
                     out.fail('retry:sent-while-closed', '%s: request %d issued with no link open was transmitted %r' % (desc, i, tx))
@@ -320,6 +346,8 @@ def retry_case(draw):
     if mode != 'none':
         tc = draw(st.sampled_from([0.1, 0.19, 0.2, 0.21, 0.35, 0.5, 0.95, 1.0, 1.05, 1.7, 2.5]))
         events.append({'t': tc, 'kind': 'close' if mode.startswith('close') else 'linkerror'})
+        if mode == 'error-reopen' and draw(st.booleans()):
+            events[-1]['reopen_in_cb'] = True
         if draw(st.booleans()):
             # a request issued by another thread at the very instant of the close
             i = len(reqs)
